@@ -138,6 +138,9 @@ def run(ctx, rep):
     from . import layer_roles
     ROLES = layer_roles.roles(prog, sl0)
     LayerPaths.sbom_path_fn = ROLES['SBOM_PATH'] or LayerPaths.sbom_path_fn
+    # the delete routine / remover by their effects (layer_roles anchors on the spelling of one remove_file call)
+    ROLES = dict(ROLES)
+    ROLES['DELETE'], ROLES['REMOVER'] = H.delete_roles(prog, sl0, ROLES)
     dl = prog.fn(ROLES['DELETE'] or 'libcnb::layer::shared::delete_layer')
     reach = prog.reach([dl])
     lib = [f for _, f in sorted(reach.items()) if f.crate == 'libcnb']
